@@ -34,7 +34,7 @@ def merge_cases(draw, max_chroms=3, max_bins=5):
     coords = draw(gen.pixel_coords(n, symmetric, max_nnz=40))
     support = draw(st.sampled_from(["overlapping", "overlapping", "identical", "disjoint", "with-empty"]))
     inputs = []
-    count_dtypes = [draw(st.sampled_from(["int32", "int32", "int64"])) for _ in range(k)]
+    count_dtypes = [draw(st.sampled_from(["int32", "int32", "int64", "float64"])) for _ in range(k)]
     for t in range(k):
         if support == "identical" or not coords:
             sel = list(coords)
@@ -45,7 +45,8 @@ def merge_cases(draw, max_chroms=3, max_bins=5):
             sel = [c for c, m in zip(coords, mask) if m]
             if support == "with-empty" and t == draw(st.integers(0, k - 1)):
                 sel = []
-        cnt = st.integers(1, 1000) if count_dtypes[t] == "int32" else st.one_of(st.integers(1, 1000), st.integers(2**31, 2**40))
+        cnt = {"int32": st.integers(1, 1000), "int64": st.one_of(st.integers(1, 1000), st.integers(2**31, 2**40)),
+               "float64": gen.DYADIC.filter(lambda v: v > 0)}[count_dtypes[t]]
         vals = draw(st.lists(st.tuples(cnt, gen.DYADIC), min_size=len(sel), max_size=len(sel)))
         inputs.append([[c[0], c[1], v[0], v[1]] for c, v in zip(sel, vals)])
     cols = draw(st.sampled_from([None, None, ["count"], ["count", "x"], ["x"]]))
@@ -127,6 +128,9 @@ def check_merge(case, ctx: Ctx):
         if "count" in cols and case["agg_count"] == "sum":
             tot = sum(r[2] for rows in case["inputs"] for r in rows)
             check(clr.info["sum"] == tot, f"recorded total {clr.info['sum']} != sum of input totals {tot}")
+            want_dt = str(np.result_type(*[np.dtype(d) for d in case["count_dtypes"]]))
+            got_dt = str(clr.pixels()[0:0]["count"].dtype)
+            check(got_dt == want_dt, f"merged count column stored as {got_dt}, the inputs' common type is {want_dt}")
         check(model.read_bins(clr) == model.bins_rows(bt), "merged bin table differs")
         check(clr.storage_mode == ("symmetric-upper" if symmetric else "square"), "storage mode not propagated")
 
